@@ -387,6 +387,25 @@ func (e *c18Env) scenario() error {
 	if err := e.newAddress("a", 1); err != nil {
 		return err
 	}
+	// The user removes a wallet when the wallet shows it is synced: two tips without any wallet
+	// transaction let the follower apply what it could not apply while a fault burst was active. (A
+	// removal accepted while blocks that pay or spend that wallet are still unapplied is a different
+	// schedule - the blocks are then applied without the removed wallet, also in a fault-free run - not
+	// a different outcome of the same schedule; see DESIGN.md Corrections.)
+	for i := 0; i < 2; i++ {
+		step := fmt.Sprintf("barrier %d", i)
+		start := e.begin(step)
+		cb := sim.Coinbase(e.wd.N.Height()+1, e.rs.Uint64(), []*wire.TxOut{wire.NewTxOut(1, sim.P2WSH(e.wd.StrangerPub()))})
+		b := e.wd.N.NewBlock(e.wd.N.Tip(), []*wire.MsgTx{cb})
+		if err := e.wd.N.Extend(b); err != nil {
+			return err
+		}
+		e.wd.Logf("extend h=%d %s (empty barrier block)", b.Height, b.Hash.String()[:10])
+		e.wd.W.Deliver(b)
+		if err := e.settle(step, start); err != nil {
+			return err
+		}
+	}
 	// removal of b while blocks arrive
 	if err := e.userOp("remove b", func() error { return e.wd.W.W.RemoveWallet(e.ids["b"], e.pass["b"]) }); err != nil {
 		return err
